@@ -217,6 +217,10 @@ var externalKinds = map[string]string{
 	"github.com/cosmos/cosmos-sdk/types.Dec":          "dec",
 	"github.com/cosmos/cosmos-sdk/types.Int":          "bigint",
 	"math/big.Int":                                    "bigint",
+	"github.com/cosmos/cosmos-sdk/types.DecCoins":     "coins",
+	"github.com/cosmos/cosmos-sdk/types.Coins":        "coins",
+	"github.com/cosmos/cosmos-sdk/types.DecCoin":      "coins",
+	"github.com/cosmos/cosmos-sdk/types.Coin":         "coins",
 	"github.com/ethereum/go-ethereum/core/vm.PrecompiledContracts": "map",
 	"github.com/cosmos/cosmos-sdk/types/module.VersionMap":         "map",
 }
